@@ -20,8 +20,10 @@ pub open spec fn wf_filter(b: Seq<u8>) -> bool {
     &&& f_tags_start(b) + 4 <= b.len()
     &&& f_tags_start(b) + u16_at(b, f_tags_start(b)) == b.len()
     &&& wf_tags(f_tags(b))
-    // every tag constraint has a name (from_json can never produce a nameless one)
-    &&& forall|t: int| 0 <= t < t_count(f_tags(b)) ==> #[trigger] t_nstr(f_tags(b), t) >= 1
+}
+// every tag constraint has a name (from_json can never produce a nameless one; from_parts can be given one)
+pub open spec fn f_named(b: Seq<u8>) -> bool {
+    forall|t: int| 0 <= t < t_count(f_tags(b)) ==> #[trigger] t_nstr(f_tags(b), t) >= 1
 }
 // ---- NIP-01 match predicate, transcribed from the statement of C06 ----
 pub open spec fn nip01_ids_ok(f: Seq<u8>, e: Seq<u8>) -> bool {
